@@ -723,13 +723,466 @@ def derv(i: int) -> int:
     return 1 if got == [DEC[i - 1]] else 0
 
 
+# =====================================================================================================
+# Third round.  Two classes the family lacked:
+#  (A) subscripted references reached through a HIERARCHICAL name some of whose levels carry neither a subscript nor
+#      a dimension (an array inside a non-array component instance `a.x[..]`, two levels `b.a.x[..]`, an equation
+#      written inside the component's class, a scalar member of a component array `q[..].s`, a matrix inside an
+#      instance, three levels `q[..].a.x[..]`): loop-dependent subscripts (forhier), constant subscripts over ALL
+#      integers (hsub, traced) and slices (hslice);
+#  (B) OBSERVATION POINTS other than an equation's residual: a subscripted reference as (part of) the value of a
+#      symbol attribute (start / min / max / nominal / fixed), of a parameter / constant binding, of a declaration
+#      equation, of a component modification (attr, attrslice), and inside other expression contexts (unary minus,
+#      products, builtins, if-expressions, if-equations, user function calls, initial equations: ctx).
+# All but hsub are window families: every argument is forked to a concrete value and the real generate() plus the
+# evaluation of what it produced run untraced.
+# =====================================================================================================
+
+
+def _in_group(groups, g, member):
+    """member in groups[g], written as an if-chain (a dict lookup with a symbolic key would realise it)."""
+    for gg, members in groups.items():
+        if g == gg:
+            return member in members
+    return False
+
+
+def _cap(name, default):
+    """Upper limit of a variant dimension in this shard (props/c23.py pins <name> in the quick tier to leave the later,
+    more expensive variants to the thorough tier); no limit in the main process (replay / sweep)."""
+    return chstubs.PIN.get(name, default)
+
+
+def _plain(fn, *args):
+    """Run fn(*args) with CrossHair's tracing off when every argument has been forked to a plain int."""
+    if chstubs.HAVE_CH:
+        with chstubs.NoTracing():
+            if all(type(v) is int for v in args):
+                return fn(*args)
+    return fn(*args)
+
+
+def _eval(m, expr, given):
+    """Evaluate an expression of the generated model (a residual, or the value of a Variable attribute) with the
+    model symbols named in `given` set to the listed values (column-major) and every other symbol at zero."""
+    if isinstance(expr, (bool, int, float)):
+        return [float(expr)]
+    syms, vals = [m.time], [ca.DM(0.0)]
+    for grp in ("states", "der_states", "alg_states", "inputs", "parameters", "constants"):
+        for v in getattr(m, grp):
+            s = v.symbol
+            syms.append(s)
+            if s.name() in given:
+                vals.append(ca.reshape(ca.DM(list(given[s.name()])), s.size1(), s.size2()))
+            else:
+                vals.append(ca.DM.zeros(s.size1(), s.size2()))
+    r = ca.Function("e", syms, [ca.MX(expr)])(*vals)
+    return [float(r[k]) for k in range(r.numel())]
+
+
+def _var(m, name):
+    for grp in ("states", "alg_states", "inputs", "parameters", "constants"):
+        for v in getattr(m, grp):
+            if v.symbol.name() == name:
+                return v
+    return None
+
+
+# ---- (A) hierarchical names ---------------------------------------------------------------------------------
+_C_X = "model C\n  Real x[3];\nend C;\n"
+# sh: (classes, declaration in M, reference ({E}: the swept subscript, 7004: the other one), dims, position of {E}, symbol)
+HIER = {0: (_C_X, "C a;", "a.x[{E}]", (3,), 0),
+        1: (_C_X + "model B\n  C a;\nend B;\n", "B b;", "b.a.x[{E}]", (3,), 0),
+        2: None,  # the equation is written inside C (see _hier_text)
+        3: ("model Q\n  Real s;\nend Q;\n", "Q q[3];", "q[{E}].s", (3,), 0),
+        4: ("model C\n  Real W[2,3];\nend C;\n", "C a;", "a.W[{E}, 7004]", (2, 3), 0),
+        5: ("model C\n  Real W[2,3];\nend C;\n", "C a;", "a.W[7004, {E}]", (2, 3), 1),
+        6: (_C_X + "model Q\n  C a;\nend Q;\n", "Q q[2];", "q[{E}].a.x[7004]", (2, 3), 0),
+        7: (_C_X + "model Q\n  C a;\nend Q;\n", "Q q[2];", "q[7004].a.x[{E}]", (2, 3), 1),
+        8: ("model C\n  Real s;\nend C;\n", "C a;", "a.s[{E}]", (), 0),  # a scalar inside an instance: never valid
+        9: ("model C\n  Real s;\nend C;\n", "C a;", "a[{E}].s", (), 0)}  # a subscript on the (scalar) instance: never valid
+HIER_TWO = (4, 5, 6, 7)  # shapes with two dimensions
+HIER_DIMS = {k: (v[3] if v else (3,)) for k, v in HIER.items()}
+HIER_POS = {k: (v[4] if v else 0) for k, v in HIER.items()}
+
+
+def _hier_text(sh, body, extra=""):
+    """Model text: `body` (with {R} for the reference) is the equation section of M - of C for sh == 2."""
+    if sh == 2:
+        return "model C\n  Real x[3];\n" + extra + "equation\n" + body.replace("{R}", "x[{E}]") + "end C;\nmodel M\n  C a;\nend M;\n"
+    classes, decl, ref = HIER[sh][:3]
+    return classes + "model M\n  " + decl + "\n" + extra + "equation\n" + body.replace("{R}", ref) + "end M;\n"
+
+
+def _hier_decl(sh):
+    """Declarations of a shape, for reports."""
+    if sh == 2:
+        return "C: Real x[3]; "
+    return " ".join(HIER[sh][0].split()).replace("model C ", "C: ").replace("model B ", "B: ").replace("model Q ", "Q: ").replace(" end C;", "").replace(" end B;", "").replace(" end Q;", "") + " " + HIER[sh][1] + " "
+
+
+def _hier_elem(sh, e, k):
+    """Position (0-based, column-major) of the element the reference selects for swept subscript e and other subscript k."""
+    dims = HIER_DIMS[sh]
+    if len(dims) == 1:
+        return e - 1
+    r, c = (e, k) if HIER_POS[sh] == 0 else (k, e)
+    return (c - 1) * dims[0] + (r - 1)
+
+
+def _hier_ok(sh, subs, k):
+    dims = HIER_DIMS[sh]
+    if len(dims) == 0:
+        return False
+    p = HIER_POS[sh]
+    return all(1 <= e <= dims[p] for e in subs) and (len(dims) == 1 or 1 <= k <= dims[1 - p])
+
+
+def _hier_size(sh):
+    n = 1
+    for d in HIER_DIMS[sh]:
+        n *= d
+    return n
+
+
+# loop-dependent subscripts.  ek: the subscript expression and the spelling of the loop range
+FORHIER_E = {0: ("i", "7001:7002"), 1: ("7003 - i", "7001:7002"), 2: ("i - 7003", "7001:7002"), 3: ("i + 7003", "7001:7002"),
+             4: ("i + 7003", "-7001:7002")}  # 4: a negative start as the parser produces it (unary minus)
+FORHIER_G = {0: (0, 1), 1: (2, 3, 8, 9), 2: (4,), 3: (5,), 4: (6,), 5: (7,)}  # shard groups
+
+
+def _forhier_tpl(sh, side, ek):
+    e, rng = FORHIER_E[ek]
+    eq = "{R} = i" if side == 0 else "i = {R}"
+    return _tpl(_hier_text(sh, f"  for i in {rng} loop\n    {eq};\n  end for;\n").replace("{E}", e))
+
+
+if _want("forhier"):
+    T_FORHIER = {(sh, side, ek): _forhier_tpl(sh, side, ek) for g, shs in FORHIER_G.items() if chstubs.PIN.get("g", g) == g
+                 for sh in shs for side in (0, 1) for ek in FORHIER_E}
+
+
+def _forhier_vals(ek, c, a, b):
+    """-> (loop values, subscript values)"""
+    loop = list(range(-a if ek == 4 else a, b + 1))
+    return loop, [{0: i, 1: c - i, 2: i - c, 3: i + c, 4: i + c}[ek] for i in loop]
+
+
+def _w_forhier(g, sh, side, ek, c, k, a, b):
+    if not (_in_group(FORHIER_G, g, sh) and side in (0, 1)):
+        return False
+    if sh in HIER_TWO:  # the constant subscript of the other dimension sweeps past both ends for x[i] on the left
+        if not (k == 1 or (ek == 0 and side == 0 and 0 <= k <= 4)):
+            return False
+    elif k != 0:
+        return False
+    if ek == 0:  # x[i]: the range sweeps past both ends
+        return c == 0 and -1 <= a <= b <= 4
+    if ek == 1:  # descending
+        return 2 <= c <= 5 and 1 <= a <= b <= 3
+    if ek == 2:
+        return 1 <= c <= 2 and 1 <= a <= b <= 5
+    if ek == 3:
+        return 1 <= c <= 2 and -1 <= a <= b <= 3
+    if ek == 4:  # for i in -a:b
+        return 0 <= c <= 3 and 0 <= a <= 2 and 0 <= b <= 3
+    return False
+
+
+def _forhier_check(sh, side, ek, c, k, a, b):
+    m = _gen(_inst(T_FORHIER[(sh, side, ek)], {7001: a, 7002: b, 7003: c, 7004: k}))
+    loop, subs = _forhier_vals(ek, c, a, b)
+    ok = _hier_ok(sh, subs, k)
+    if m is None:
+        return 0 if ok else 1
+    if not ok:
+        return 0
+    n = _hier_size(sh)
+    got = sorted(_call(m, alg=DEC[:n]))
+    sign = 1.0 if side == 0 else -1.0
+    exp = sorted(sign * (DEC[_hier_elem(sh, e, k)] - i) for e, i in zip(subs, loop))
+    return 1 if got == exp else 0
+
+
+def forhier(g: int, sh: int, side: int, ek: int, c: int, k: int, a: int, b: int) -> int:
+    """
+    pre: pin(g=g, ek=ek) and ek <= _cap("ekmax", 4) and _w_forhier(g, sh, side, ek, c, k, a, b)
+    post: _ == 1
+    """
+    g = _concretize(g, 0, 5)
+    sh = _concretize(sh, 0, 9)
+    side = _concretize(side, 0, 1)
+    ek = _concretize(ek, 0, 4)
+    c = _concretize(c, 0, 5)
+    k = _concretize(k, 0, 4)
+    a = _concretize(a, -1, 5)
+    b = _concretize(b, -1, 5)
+    return _plain(_forhier_check, sh, side, ek, c, k, a, b)
+
+
+# constant subscripts, ALL integers (symbolically executed)
+HSUB_G = {0: (0,), 1: (8, 9), 2: (1, 2), 3: (3,), 4: (4,), 5: (6,)}  # shard groups (4/5 and 6/7 are the same reference here)
+if _want("hsub"):
+    T_HSUB = {sh: _tpl(_hier_text(sh, "  y = {R};\n", "  Real y;\n").replace("{E}", "7001"))
+              for g, shs in HSUB_G.items() if chstubs.PIN.get("g", g) == g for sh in shs}
+
+
+def _w_hsub(g, sh, i, j):
+    return _in_group(HSUB_G, g, sh) and (sh in HIER_TWO or j == 0)
+
+
+def hsub(g: int, sh: int, i: int, j: int) -> int:
+    """
+    pre: pin(g=g) and _w_hsub(g, sh, i, j)
+    post: _ == 1
+    """
+    g = _concretize(g, 0, 5)
+    sh = _concretize(sh, 0, 9)
+    m = _gen(_inst(T_HSUB[sh], {7001: i, 7004: j}))
+    ok = _hier_ok(sh, [i], j)
+    if m is None:
+        return 0 if ok else 1
+    if not ok:
+        return 0
+    got = _call(m, alg=DEC[:_hier_size(sh)] + [0.0])
+    return 1 if got == [-DEC[_hier_elem(sh, i, j)]] else 0
+
+
+# slices (s == 0: the unstrided spelling a:b)
+HSLICE_SH = (0, 1, 2, 3, 8, 9)
+if _want("hslice"):
+    T_HSLICE = {(sh, st): _tpl(_hier_text(sh, "  y = sum({R});\n", "  Real y;\n").replace("{E}", "7001:7003:7002" if st else "7001:7002"))
+                for sh in HSLICE_SH for st in (0, 1) if chstubs.PIN.get("sh", sh) == sh}
+
+
+def _w_hslice(sh, s, a, b):
+    return sh in HSLICE_SH and 0 <= s <= 3 and 0 <= a <= 4 and 0 <= b <= 5
+
+
+def _hslice_check(sh, s, a, b):
+    sel = _stepped(a, s if s > 0 else 1, b)
+    empty = len(sel) == 0
+    outside = (not _hier_ok(sh, sel, 0)) and not empty
+    m = _gen(_inst(T_HSLICE[(sh, 1 if s > 0 else 0)], {7001: a, 7002: b, 7003: s}))
+    if m is None:
+        return 1 if (outside or empty or sh in (8, 9)) else 0
+    if outside or sh in (8, 9):  # a slice of a scalar is never valid, not even an empty one
+        return 0
+    got = _call(m, alg=DEC[:3] + [0.0])
+    if empty:
+        return 1 if got in ([], [0.0]) else 0
+    return 1 if got == [-sum(DEC[k - 1] for k in sel)] else 0
+
+
+def hslice(sh: int, s: int, a: int, b: int) -> int:
+    """
+    pre: pin(sh=sh, s=s) and _w_hslice(sh, s, a, b)
+    post: _ == 1
+    """
+    sh = _concretize(sh, 0, 9)
+    s = _concretize(s, 0, 3)
+    a = _concretize(a, 0, 4)
+    b = _concretize(b, 0, 5)
+    return _plain(_hslice_check, sh, s, a, b)
+
+
+# ---- (B) a subscripted reference as the value of an attribute / binding / modification ----------------------------
+# src: (classes, declaration ({T}: element type), reference, dims, name of the generated symbol)
+ATTR_SRC = {0: ("", "parameter {T} p[3];", "p[7001]", (3,), "p"),
+            1: ("", "parameter {T} P[2,3];", "P[7001, 7002]", (2, 3), "P"),
+            2: ("", "parameter {T} s;", "s[7001]", (), "s"),  # a subscript on a scalar: never valid
+            3: ("model C\n  parameter {T} p[3];\nend C;\n", "C a;", "a.p[7001]", (3,), "a.p")}
+ATTR_FORM = {0: "{R}", 1: "2 * {R}", 2: "-{R}"}
+_D = "model D\n  parameter Real k;\n  Real x;\nequation\n  x = k;\nend D;\n"
+# host: (classes, declarations, equations, variable carrying the value, attribute - None: the residual of equation 0)
+ATTR_HOST = {0: ("", "Real y(start = {V});", "y = 1;", "y", "start"),
+             1: ("", "Real y(min = {V});", "y = 1;", "y", "min"),
+             2: ("", "Real y(max = {V});", "y = 1;", "y", "max"),
+             3: ("", "Real y(nominal = {V});", "y = 1;", "y", "nominal"),
+             4: ("", "parameter Real q = {V};\n  Real y;", "y = q;", "q", "value"),
+             5: ("", "constant Real q = {V};\n  Real y;", "y = q;", "q", "value"),
+             6: ("", "Real y = {V};", "", "y", None),  # declaration equation
+             7: ("", "input Real u(max = {V});\n  Real y;", "y = u;", "u", "max"),
+             8: ("", "Real x(start = {V});", "der(x) = 1;", "x", "start"),  # a state
+             9: (_D, "D d(x(start = {V}));", "", "d.x", "start"),  # modification of a component's variable
+             10: (_D, "D d(k = {V});", "", "d.k", "value"),  # modification of a component's parameter
+             11: ("", "Real x(fixed = {V});", "der(x) = 1;", "x", "fixed"),  # Boolean attribute: form 0 only
+             12: ("", "parameter Real q(min = {V}) = 1;\n  Real y;", "y = q;", "q", "min")}
+ATTR_G = {0: (0, 4, 9), 1: (1, 6, 11), 2: (2, 5, 10), 3: (3, 7, 8, 12)}  # shard groups
+
+
+def _attr_text(host, value, src, ty="Real"):
+    """Model text for a host (classes, declarations with {V}, equations, ...) and a source of the subscripted symbol."""
+    hc, hd, he = host[:3]
+    sc, sd = ATTR_SRC[src][:2]
+    eqs = ("equation\n  " + he + "\n") if he else ""
+    return (sc + hc).replace("{T}", ty) + "model M\n  " + sd.replace("{T}", ty) + "\n  " + hd.replace("{V}", value) + "\n" + eqs + "end M;\n"
+
+
+def _attr_tpl(h, form, src):
+    return _tpl(_attr_text(ATTR_HOST[h], ATTR_FORM[form].replace("{R}", ATTR_SRC[src][2]), src, "Boolean" if h == 11 else "Real"))
+
+
+if _want("attr"):
+    T_ATTR = {(h, form, src): _attr_tpl(h, form, src) for g, hs in ATTR_G.items() if chstubs.PIN.get("g", g) == g
+              for h in hs for form in ATTR_FORM for src in ATTR_SRC if not (h == 11 and form != 0)}
+
+
+def _w_attr(g, h, form, src, i, j):
+    if not (_in_group(ATTR_G, g, h) and 0 <= form <= 2 and 0 <= src <= 3) or (h == 11 and form != 0):
+        return False
+    if src == 1:
+        return 0 <= i <= 3 and 0 <= j <= 4
+    if src == 2:
+        return 0 <= i <= 1 and j == 0
+    return -1 <= i <= 4 and j == 0
+
+
+def _attr_value(m, host, given):
+    """What the generated model holds at the observation point of a host, evaluated with the source symbol at DEC."""
+    name, attr = host[3:]
+    if attr is None:
+        return [-x for x in _eval(m, ca.vertcat(*m.equations), given)]  # residual y - V at y = 0
+    v = _var(m, name)
+    if v is None:
+        return None
+    return _eval(m, getattr(v, attr), given)
+
+
+def _attr_check(h, form, src, i, j):
+    dims, sym = ATTR_SRC[src][3:]
+    ok = len(dims) > 0 and 1 <= i <= dims[0] and (len(dims) == 1 or 1 <= j <= dims[1])
+    m = _gen(_inst(T_ATTR[(h, form, src)], {7001: i, 7002: j}))
+    if m is None:
+        return 0 if ok else 1
+    if not ok:
+        return 0
+    n = 1
+    for d in dims:
+        n *= d
+    el = DEC[i - 1] if len(dims) == 1 else DEC[(j - 1) * dims[0] + (i - 1)]
+    exp = {0: el, 1: 2 * el, 2: -el}[form]
+    return 1 if _attr_value(m, ATTR_HOST[h], {sym: DEC[:n]}) == [exp] else 0
+
+
+def attr(g: int, h: int, form: int, src: int, i: int, j: int) -> int:
+    """
+    pre: pin(g=g, form=form) and form <= _cap("formmax", 2) and _w_attr(g, h, form, src, i, j)
+    post: _ == 1
+    """
+    g = _concretize(g, 0, 3)
+    h = _concretize(h, 0, 12)
+    form = _concretize(form, 0, 2)
+    src = _concretize(src, 0, 3)
+    i = _concretize(i, -1, 4)
+    j = _concretize(j, 0, 4)
+    return _plain(_attr_check, h, form, src, i, j)
+
+
+# slices as the value of an array host of size 2 (s == 0: the unstrided spelling)
+_D2 = "model D\n  parameter Real k[2];\n  Real x;\nequation\n  x = k[1];\nend D;\n"
+ATTRSLICE_HOST = {0: ("", "Real y[2](start = {V});", "y = {1, 2};", "y", "start"),
+                  1: ("", "Real y[2](min = {V});", "y = {1, 2};", "y", "min"),
+                  2: ("", "parameter Real q[2] = {V};\n  Real y;", "y = q[1];", "q", "value"),
+                  3: ("", "Real y[2] = {V};", "", "y", None),
+                  4: (_D2, "D d(k = {V});", "", "d.k", "value")}
+
+
+def _attrslice_tpl(h, st, src):
+    return _tpl(_attr_text(ATTRSLICE_HOST[h], ATTR_SRC[src][2].replace("7001", "7001:7003:7002" if st else "7001:7002"), src))
+
+
+if _want("attrslice"):
+    T_ATTRSLICE = {(h, st, src): _attrslice_tpl(h, st, src) for h in ATTRSLICE_HOST for st in (0, 1) for src in (0, 3)
+                   if chstubs.PIN.get("src", src) == src}
+
+
+def _w_attrslice(h, src, s, a, b):
+    return 0 <= h <= 4 and src in (0, 3) and 0 <= s <= 2 and 0 <= a <= 4 and 0 <= b <= 5
+
+
+def _attrslice_check(h, src, s, a, b):
+    sel = _stepped(a, s if s > 0 else 1, b)
+    outside = any(k < 1 or k > 3 for k in sel)
+    m = _gen(_inst(T_ATTRSLICE[(h, 1 if s > 0 else 0, src)], {7001: a, 7002: b, 7003: s}))
+    if m is None:
+        return 1  # in range: the host has 2 elements, other lengths may be refused (not a range question)
+    if outside:
+        return 0
+    if len(sel) != 2:
+        return 1
+    return 1 if _attr_value(m, ATTRSLICE_HOST[h], {ATTR_SRC[src][4]: DEC[:3]}) == [DEC[k - 1] for k in sel] else 0
+
+
+def attrslice(h: int, src: int, s: int, a: int, b: int) -> int:
+    """
+    pre: pin(src=src, s=s) and _w_attrslice(h, src, s, a, b)
+    post: _ == 1
+    """
+    h = _concretize(h, 0, 4)
+    src = _concretize(src, 0, 3)
+    s = _concretize(s, 0, 2)
+    a = _concretize(a, 0, 4)
+    b = _concretize(b, 0, 5)
+    return _plain(_attrslice_check, h, src, s, a, b)
+
+
+# other expression contexts of an equation section (x = DEC; the residual at y = 0 must be the context's value)
+_CTX_F = "function f\n  input Real u;\n  output Real v;\nalgorithm\n  v := 2 * u + 1;\nend f;\n"
+CTX = {0: ("y = -x[7001];", lambda v: [v]), 1: ("y = x[7001] * x[2];", lambda v: [-v * 10.0]), 2: ("y = abs(x[7001]);", lambda v: [-v]),
+       3: ("y = if x[7001] > 5 then 3 else 4;", lambda v: [-3.0 if v > 5 else -4.0]), 4: ("y = f(x[7001]);", lambda v: [-(2 * v + 1)]),
+       5: ("y = min(x[7001], 50);", lambda v: [-min(v, 50.0)]), 6: ("y = x[7001] ^ 2;", lambda v: [-v * v]),
+       7: ("if x[7001] > 5 then\n    y = 3;\n  else\n    y = 4;\n  end if;", lambda v: [-3.0 if v > 5 else -4.0]),
+       8: ("y = if time > 1 then 0 else x[7001];", lambda v: [-v]), 9: ("y = x[2] - x[7001] / 4;", lambda v: [-(10.0 - v / 4)]),
+       10: None}  # 10: initial equation
+
+
+def _ctx_text(q):
+    if q == 10:
+        return "model M\n  Real x[3];\n  Real y;\ninitial equation\n  y = x[7001];\nequation\n  der(y) = 1;\nend M;\n"
+    return _CTX_F + "model M\n  Real x[3];\n  Real y;\nequation\n  " + CTX[q][0] + "\nend M;\n"
+
+
+if _want("ctx"):
+    T_CTX = {q: _tpl(_ctx_text(q)) for q in CTX}
+
+
+def _w_ctx(q, i):
+    return q in CTX and -2 <= i <= 5
+
+
+def _ctx_check(q, i):
+    ok = 1 <= i <= 3
+    m = _gen(_inst(T_CTX[q], {7001: i}))
+    if m is None:
+        return 0 if ok else 1
+    if not ok:
+        return 0
+    if q == 10:
+        return 1 if _eval(m, ca.vertcat(*m.initial_equations), {"x": DEC[:3]}) == [-DEC[i - 1]] else 0
+    return 1 if _eval(m, ca.vertcat(*m.equations), {"x": DEC[:3]}) == CTX[q][1](DEC[i - 1]) else 0
+
+
+def ctx(q: int, i: int) -> int:
+    """
+    pre: _w_ctx(q, i)
+    post: _ == 1
+    """
+    q = _concretize(q, 0, 10)
+    i = _concretize(i, -2, 5)
+    return _plain(_ctx_check, q, i)
+
+
 # ---- concrete sweep of a shard's window (used by props/c23.py after a counterexample; no CrossHair) -----------
 SWEEP_BOX = range(-2, 10)
 WINDOWED = {"forexpr": (_w_forexpr, ("n", "kind", "c", "a", "b")), "forstep": (_w_forstep, ("n", "s", "a", "b")),
             "formix": (_w_formix, ("nest", "pos", "kind", "c", "k", "a", "b")), "forscalar": (_w_forscalar, ("kind", "c", "a", "b")),
             "forfunc": (_w_forfunc, ("kind", "c", "a", "b")), "slice3n": (_w_slice3n, ("n", "s", "a", "b")),
             "mslice": (_w_mslice, ("pos", "s", "r", "a", "b")), "mcolon": (_w_mcolon, ("pos", "r")), "matn": (_w_matn, ("sh", "i", "j")),
-            "reject": (_w_reject, ("kind", "i", "j")), "psub": (_w_psub, ("kind", "k", "d")), "derv": (_w_derv, ("i",))}
+            "reject": (_w_reject, ("kind", "i", "j")), "psub": (_w_psub, ("kind", "k", "d")), "derv": (_w_derv, ("i",)),
+            "forhier": (_w_forhier, ("g", "sh", "side", "ek", "c", "k", "a", "b")), "hsub": (_w_hsub, ("g", "sh", "i", "j")),
+            "hslice": (_w_hslice, ("sh", "s", "a", "b")), "attr": (_w_attr, ("g", "h", "form", "src", "i", "j")),
+            "attrslice": (_w_attrslice, ("h", "src", "s", "a", "b")), "ctx": (_w_ctx, ("q", "i"))}
 
 
 def sweep(func, pinned):
@@ -795,6 +1248,28 @@ def describe(func, args):
             return f"parameter Integer k = {k}; Real x[3]; y = " + sub(PSUB[kind], {7001: k, 7002: d})
         if func == "derv":
             return f"Real x[3]; der(x[{args[0]}]) = y"
+        if func == "forhier":
+            g, sh, side, ek, c, k, a, b = args
+            e, rng = FORHIER_E[ek]
+            ref = ("x[{E}] (equation inside C; C a)" if sh == 2 else HIER[sh][2]).replace("{E}", e)
+            return _hier_decl(sh) + f"for i in {sub(rng, {7001: a, 7002: b})} loop " + sub(f"{ref} = i" if side == 0 else f"i = {ref}", {7003: c, 7004: k})
+        if func == "hsub":
+            g, sh, i, j = args
+            return _hier_decl(sh) + "y = " + sub(("x[{E}] (equation inside C; C a)" if sh == 2 else HIER[sh][2]).replace("{E}", "7001"), {7001: i, 7004: j})
+        if func == "hslice":
+            sh, s, a, b = args
+            sl = f"{a}:{s}:{b}" if s > 0 else f"{a}:{b}"
+            return _hier_decl(sh) + "y = sum(" + ("x[{E}] (equation inside C; C a)" if sh == 2 else HIER[sh][2]).replace("{E}", sl) + ")"
+        if func == "attr":
+            g, h, form, src, i, j = args
+            return ATTR_SRC[src][1].replace("{T}", "Boolean" if h == 11 else "Real") + " " + sub(ATTR_HOST[h][1].replace("{V}", ATTR_FORM[form].replace("{R}", ATTR_SRC[src][2])), {7001: i, 7002: j}).replace("\n ", "")
+        if func == "attrslice":
+            h, src, s, a, b = args
+            sl = f"{a}:{s}:{b}" if s > 0 else f"{a}:{b}"
+            return ATTR_SRC[src][1].replace("{T}", "Real") + " " + ATTRSLICE_HOST[h][1].replace("{V}", ATTR_SRC[src][2].replace("7001", sl)).replace("\n ", "")
+        if func == "ctx":
+            q, i = args
+            return "Real x[3]; " + ("initial equation y = x[%d]" % i if q == 10 else sub(CTX[q][0], {7001: i}).replace("\n  ", " "))
     except Exception:
         pass
     return ""
